@@ -143,9 +143,13 @@ def finite_differences(ctx: Ctx) -> None:
                             other.list(lambda d: (d.ul().spot - 1.0) * 0.5 + 0.1, cost=cost / 2)
                             hedge = [stock, other]
                         n_in = len(feats) + (H - 1 if "prev_hedge" in feats else 0)
-                        model = torch.nn.Sequential(torch.nn.Linear(n_in, 5, dtype=DT), torch.nn.Tanh(), torch.nn.Linear(5, H, dtype=DT))
+                        model = torch.nn.Sequential(torch.nn.Linear(n_in + 2, 5, dtype=DT), torch.nn.Tanh(), torch.nn.Linear(5, H, dtype=DT))
                         crit = mk()
-                        hedger = Hedger(model, feats, criterion=crit)
+                        # a trainable feature extractor (ModuleOutput): gradients must also flow through the FEATURES
+                        from pfhedge.features import ModuleOutput
+                        extractor = torch.nn.Sequential(torch.nn.Linear(2, 2, dtype=DT), torch.nn.Tanh())
+                        hedger = Hedger(model, [ModuleOutput(extractor, ["log_moneyness", "time_to_maturity"])] + list(feats), criterion=crit)
+                        hedger.extractor = extractor          # registered so that hedger.parameters() contains its parameters
                         hedger.train() if mode == "train" else hedger.eval()
 
                         def loss_fn() -> torch.Tensor:
